@@ -4,8 +4,8 @@ cd "$(dirname "$0")/.."
 tier=${1:-quick}
 for id in $(python3 -c "import json;print(' '.join(c['property_id'] for c in json.load(open('MANIFEST.json'))['checks']))"); do
   s=$(date +%s)
-  ./check $id --tier $tier > /tmp/runall-$id.log 2>&1
+  ./check $id --tier $tier > /var/tmp/runall-$id.log 2>&1
   rc=$?
   e=$(date +%s)
-  echo "$id exit=$rc $((e-s))s $(grep -c '^VIOLATION' /tmp/runall-$id.log) violations; $(grep 'INCONCLUSIVE' /tmp/runall-$id.log | head -2 | cut -c1-200)"
+  echo "$id exit=$rc $((e-s))s $(grep -c '^VIOLATION' /var/tmp/runall-$id.log) violations; $(grep 'INCONCLUSIVE' /var/tmp/runall-$id.log | head -2 | cut -c1-200)"
 done
